@@ -768,10 +768,17 @@ func (c *EvalCtx) call(x *Expr) (*Val, error) {
 			return nil, err
 		}
 		switch a.S {
-		case sStr:
-			return &Val{T: "(slen " + a.T + ")", S: sBV64, Typ: types.Typ[types.Int]}, nil
-		case sBytes:
-			return &Val{T: "(slen (b_str " + a.T + "))", S: sBV64, Typ: types.Typ[types.Int]}, nil
+		case sStr, sBytes:
+			t := "(slen " + a.T + ")"
+			if a.S == sBytes {
+				t = "(slen (b_str " + a.T + "))"
+			}
+			if !strings.Contains(t, "q_") && !c.st.asserted["nn:"+t] {
+				// every string has a non-negative length below 2^48 (a fact, not an obligation)
+				c.st.asserted["nn:"+t] = true
+				c.st.pc = append(c.st.pc, "(bvule "+t+" #x0000ffffffffffff)")
+			}
+			return &Val{T: t, S: sBV64, Typ: types.Typ[types.Int]}, nil
 		case sSlice:
 			return &Val{T: "(s_len " + a.T + ")", S: sBV64, Typ: types.Typ[types.Int]}, nil
 		}
